@@ -2125,6 +2125,7 @@ class StateEngine(object):
                 test for a Variable/path actually being present.
                 """
                 path_match_failed = False
+                path_missing = object()  # Not a JSON value, so no comparison matches it
                 try:
                     variable = apply_path(
                         input,
@@ -2133,7 +2134,7 @@ class StateEngine(object):
                         throw_exception_on_failed_match=True
                     )
                 except PathMatchFailure:
-                    variable = False
+                    variable = path_missing
                     path_match_failed = True
 
                 next = choice.get("Next", True)
